@@ -21,6 +21,23 @@ package router
 //@ func Router.sessionFromPingHeader
 //@   requires nonnil(f) && f.data != nil
 //@   ensures verified-session [C01,C07]: result1 == nil ==> result0 != nil
+//@   callsite state.State.AddRouter first-contact-key-hashes-to-source [C01,C07]: arg1 != nil && arg1.verified && arg1.IP == f.SrcIP()
+//@   ensures session-of-source [C07]: result1 == nil ==> result0.id == f.SrcIP()
+
+// ---- control plane (C07): a ping reaches its handler only after it was authenticated under the session bound to
+// its source address. (Hop pings whose signature verifies but whose timestamp equals the previous one are let
+// through by design - "an exact duplicate of the newest announcement is tolerated" - so the condition is on the
+// key that authenticated the bytes, authBy, not on the sequence check.)
+//@ func Router.parsePingMsg
+//@   requires nonnil(f) && f.data != nil
+//@   callsite frame.FrameV1.Unseal session-of-source [C07]: arg1 != nil && arg1.id == f.SrcIP()
+//@   ensures authenticated-as-source [C07]: err == nil ==> f.authBy != nil && f.authBy.id == f.SrcIP() && f.authBy.address.verified
+//@   ensures replay-refused-except-hop-duplicates [C07]: err == nil ==> f.unsealedBy == f.authBy || f.data[4] == uint8(frame.RouterHopPing) || f.data[4] == uint8(frame.RouterHopPingDeprecated)
+//@   ensures body-in-message [C13]: err == nil ==> hdr != nil
+
+//@ func Router.handlePing
+//@   requires nonnil(f) && f.data != nil && w != nil
+//@   callsite PingHandler.Handle only-authenticated-pings-reach-handlers [C07]: arg1.authBy != nil && arg1.authBy.id == arg1.SrcIP()
 
 //@ func AnnouncePingHandler.sessionFromAnnouncePingAttachment
 //@   requires a != nil
